@@ -83,6 +83,13 @@ Theorem C14_frame_step : forall t s1 s a, frel t s1 s -> avoids t a -> orel t (s
 Proof. exact frame_step. Qed.
 Print Assumptions C14_frame_step.
 
+(* a graceful shutdown of the commander (AClose / ACloseOk) among the later actions: it names no request
+   ([avoids t AClose] and [avoids t ACloseOk] are [True]), so it is covered by C14_later_run / C14_frame_step for every
+   preview [t]; stated on its own: *)
+Theorem C14_frame_close : forall t s1 s a, a = AClose \/ a = ACloseOk -> frel t s1 s -> orel t (step s1 a) (step s a).
+Proof. exact frame_close. Qed.
+Print Assumptions C14_frame_close.
+
 (* sequential histories (distinct thread ids) stay in reachable quiescent states: the hypotheses above are those of
    every position in a sequential history *)
 Theorem C14_sequential_quiescent : forall h s, reachable s -> quiescent s -> fresh_for s h ->
